@@ -151,7 +151,7 @@ impl PointCloud {
                 continue;
             }
             let ns_url = n.tag_name().namespace();
-            let ns = n.lookup_prefix(ns_url.unwrap_or_default());
+            let ns = xml::written_prefix(&n);
             let tag = n.tag_name().name();
             let name = if ns_url.is_none() || ns_url == Some(xml::E57_NAMESPACE_URL) {
                 RecordName::from_namespace_and_tag_name(ns, tag)?
